@@ -2,6 +2,7 @@
    Statements restated verbatim from the proof files and closed by `exact`; nothing else is proved here. *)
 From BS Require Import Bytes Cid Proto Types Wantlist Client Client_proofs Client_proofs2 Client_proofs3 Client_proofs4 Tie_consts.
 From BS Require Import Tie_client.   (* tie lemmas: a source edit that changes what they extract breaks this file's closure *)
+From BS Require Import Tie_handler.  (* Handler.poll_iter IS the interpretation of the extracted arms of ClientConnectionHandler::poll *)
 Open Scope N_scope.
 
 Theorem C05_first_is_full sdh ops1 p c ops2 ch c' f es :
@@ -176,3 +177,156 @@ Theorem C05_net_first_is_full :
 Proof. exact (@Net_props4.C05_net_first_is_full). Qed.
 
 Print Assumptions C05_net_first_is_full.
+
+(* ---- transmission faults at NETWORK level (package P, NetF.v = Net.v + the handler's Failed report for a wantlist in flight, delivered
+   or not, + reconnect).  Runs in which the faulty connection is closed before the sender polls again ("windowed"; any other steps of the net
+   may happen in between) are runs of Net.v, so settle terminates and after settle + refresh the serving side's record equals the requester's
+   live wants and a live query for a held block is answered: the exchange heals.  The negative half is exact too: on the ONLY connection of a
+   pair a Failed report followed by the sender's poll makes the client forget the peer while the connection stays up, and nothing short of
+   closing that connection restores it (the observation of DESIGN §9 in theorem form; C05 promises the full wantlist "over a remaining
+   connection if there is one").  Net.v's invariant RI is NOT preserved by a fault (refuted with a witness), which is why the positive half
+   goes through the equivalence with fault-free runs instead of a repaired invariant. *)
+From BS Require Import Server_lemmas Server_inv Wantlist_proofs Client_proofs Client_proofs2 Client_proofs3 Client_proofs4
+  Net Net_proofs Net_proofs2 Net_proofs3 Net_proofs4 Net_proofs5 Net_proofs6 Net_proofs7 Net_proofs9 Net_proofs10 Net_proofs24
+  Net_proofs28 Net_proofs32 Net_proofs35 Net_proofs36 Net_props
+  NetF NetF_proofs NetF_proofs2 NetF_proofs3 NetF_proofs4 NetF_proofs5 NetF_proofs6 NetF_proofs7 NetF_proofs8 NetF_proofs9 NetF_proofs10 NetF_proofs11.
+From BS Require Import NetF_props.
+From Coq Require Import ZArith Lia Permutation.
+Open Scope N_scope.
+
+Theorem C05_net_self_heals :
+  forall (Sz : N) (Hh : hash_fn),
+  32 <= Sz ->
+  forall (i j : N) (n : nat) (fops : list fop) (ops : list nop),
+  erase fops = Some ops ->
+  Forall (nop_good Sz Hh) ops ->
+  Forall (nop_wf Sz) ops ->
+  let s := fst (frun Sz Hh (net_init n) fops) in
+  connected s i j = true ->
+  let r1 := settle Sz Hh s in
+  let r2 := refresh Sz Hh (fst r1) in
+  (length (wl_i i (fst r1)) <= 1024)%nat ->
+  tracks s i j = true /\
+  (forall c : cid,
+   In c (wl_i i (fst r2)) <-> (exists st : sstate, server_of (fst r2) j = Some st /\ wantsP (s_wants st) i c)) /\
+  (forall (q : qid) (c : cid),
+   live_query i q c s ->
+   (exists (st : list (cid * bytes)) (d : bytes), store_of s j = Some st /\ store_get st c = SHit d) ->
+   answered i q (snd r1 ++ snd r2)).
+Proof. exact (@NetF_props.P_C05_net_self_heals). Qed.
+
+Theorem C05_net_self_heals_windowed :
+  forall (Sz : N) (Hh : hash_fn),
+  32 <= Sz ->
+  forall (i j : N) (n : nat) (fops : list fop) (ops : list nop),
+  wshape fops ops ->
+  Forall (nop_good Sz Hh) ops ->
+  Forall (nop_wf Sz) ops ->
+  let s := fst (frun Sz Hh (net_init n) fops) in
+  connected s i j = true ->
+  let r1 := settle Sz Hh s in
+  let r2 := refresh Sz Hh (fst r1) in
+  (length (wl_i i (fst r1)) <= 1024)%nat ->
+  (forall c : cid,
+   In c (wl_i i (fst r2)) <-> (exists st : sstate, server_of (fst r2) j = Some st /\ wantsP (s_wants st) i c)) /\
+  (forall (q : qid) (c : cid),
+   live_query i q c s ->
+   (exists (st : list (cid * bytes)) (d : bytes), store_of s j = Some st /\ store_get st c = SHit d) ->
+   answered i q (snd r1 ++ snd r2)).
+Proof. exact (@NetF_props.P_C05_net_self_heals_windowed). Qed.
+
+Theorem C05_net_episodic_run_is_fault_free_run :
+  forall (Sz : N) (Hh : hash_fn),
+  32 <= Sz ->
+  forall (n : nat) (fops : list fop) (ops : list nop),
+  erase fops = Some ops ->
+  Forall (nop_good Sz Hh) ops -> frun Sz Hh (net_init n) fops = nrun Sz Hh (net_init n) ops.
+Proof. exact (@NetF_props.P_episodic_run). Qed.
+
+Theorem C05_net_windowed_run_is_fault_free_run :
+  forall (Sz : N) (Hh : hash_fn),
+  32 <= Sz ->
+  forall (n : nat) (fops : list fop) (ops : list nop),
+  wshape fops ops -> Forall (nop_good Sz Hh) ops -> frun Sz Hh (net_init n) fops = nrun Sz Hh (net_init n) ops.
+Proof. exact (@NetF_props.P_windowed_run). Qed.
+
+Theorem C05_net_settle_terminates_with_faults :
+  forall (Sz : N) (Hh : hash_fn),
+  32 <= Sz ->
+  forall (n : nat) (fops : list fop) (ops : list nop),
+  wshape fops ops ->
+  Forall (nop_good Sz Hh) ops ->
+  Forall (nop_wf Sz) ops -> quietb (fst (settle Sz Hh (fst (frun Sz Hh (net_init n) fops)))) = true.
+Proof. exact (@NetF_props.P_settle_terminates_F_windowed). Qed.
+
+Theorem C05_net_reconnect_fresh :
+  forall (Sz : N) (Hh : hash_fn) (i j : N) (n : nat) (pre : list fop),
+  let s := fst (frun Sz Hh (net_init n) pre) in
+  connected s i j = true ->
+  let s' := fst (fstep Sz Hh s (FReconnect i j)) in
+  connected s' i j = true /\
+  peer_of s' i j = Some fresh_peer /\
+  peer_of s' j i = Some fresh_peer /\ inflight s' i j = [] /\ inflight s' j i = [].
+Proof. exact (@NetF_props.P_reconnect_fresh). Qed.
+
+Theorem C05_net_fault_forgets :
+  forall (Sz : N) (Hh : hash_fn) (n : nat) (pre : list fop) (i j : N) (d : bool) (t : time),
+  let s := fst (frun Sz Hh (net_init n) pre) in
+  inflight s i j <> [] ->
+  ss_of s i j = Some (SsSending t CONN) ->
+  let s1 := fst (fstep Sz Hh s (FFailW i j d)) in
+  let s2 := fst (fstep Sz Hh s1 (FOp (NPoll i))) in
+  ss_of s1 i j = Some (SsFailed CONN) /\ connected s2 i j = true /\ tracks s2 i j = false.
+Proof. exact (@NetF_props.P_C05_net_fault_forgets). Qed.
+
+Theorem C05_net_stays_forgotten :
+  forall (Sz : N) (Hh : hash_fn) (i j : N) (n : nat) (pre ops : list fop),
+  let s := fst (frun Sz Hh (net_init n) pre) in
+  connected s i j = true ->
+  tracks s i j = false ->
+  Forall (fun o : fop => closes_pair i j o = false) ops ->
+  let r := frun_h Sz Hh s ops in
+  tracks (fst (fst r)) i j = false /\
+  connected (fst (fst r)) i j = true /\ (forall m : wmsg, In m (h_entered (snd r)) -> w_between i j m = false).
+Proof. exact (@NetF_props.P_C05_net_stays_forgotten). Qed.
+
+Theorem C05_net_forgotten_peer_refuted :
+  forall d : bool,
+  let s := fst (frun SZ toyH (net_init 2) (pf_stay d)) in
+  connected s 0 1 = true /\
+  live_query 0 0 c1 s /\
+  (exists (st : list (cid * bytes)) (dd : bytes), store_of s 1 = Some st /\ store_get st c1 = SHit dd) /\
+  tracks s 0 1 = false /\
+  tracks s 1 0 = true /\
+  (let r1 := settle SZ toyH s in
+   let r2 := refresh SZ toyH (fst r1) in
+   let r3 := refresh SZ toyH (fst r2) in
+   quietb (fst r1) = true /\
+   quietb (fst r2) = true /\
+   quietb (fst r3) = true /\
+   (length (wl_i 0 (fst r1)) <= 1024)%nat /\
+   ~ answered 0 0 (snd r1 ++ snd r2 ++ snd r3) /\
+   tracks (fst r3) 0 1 = false /\ connected (fst r3) 0 1 = true /\ live_query 0 0 c1 (fst r3)).
+Proof. exact (@NetF_props.P_C05_net_forgotten_peer_refuted). Qed.
+
+Theorem C05_net_invariant_broken_by_fault_refuted :
+  exists (s : net) (o : fop), RI SZ toyH s /\ ~ RI SZ toyH (fst (fstep SZ toyH s o)).
+Proof. exact (@NetF_props.P_RI_fstep_refuted). Qed.
+
+Theorem C05_net_clients_are_client_runs :
+  forall (Sz : N) (Hh : hash_fn) (n : nat) (fops : list fop) (k : N) (nd : node),
+  get_node (fst (frun Sz Hh (net_init n) fops)) k = Some nd ->
+  exists cops : list cop, Forall cop_net cops /\ n_client nd = st_after true cops.
+Proof. exact (@NetF_props.P_reachableF_client_trace). Qed.
+
+Print Assumptions C05_net_self_heals.
+Print Assumptions C05_net_self_heals_windowed.
+Print Assumptions C05_net_episodic_run_is_fault_free_run.
+Print Assumptions C05_net_windowed_run_is_fault_free_run.
+Print Assumptions C05_net_settle_terminates_with_faults.
+Print Assumptions C05_net_reconnect_fresh.
+Print Assumptions C05_net_fault_forgets.
+Print Assumptions C05_net_stays_forgotten.
+Print Assumptions C05_net_forgotten_peer_refuted.
+Print Assumptions C05_net_invariant_broken_by_fault_refuted.
+Print Assumptions C05_net_clients_are_client_runs.
